@@ -216,10 +216,10 @@ class QueueingScenario(Scenario):
             running = env.memo.setdefault('running', set())
             running.add(seq)
             env.memo['maxconc'] = max(env.memo.get('maxconc', 0), len(running))
-            if len({s for s in running if self.events[s][1] == self.events[seq][1]}) > 1:
+            if len({s for s in running if uid == (self.events[s][1] if s < len(self.events) else 'a')}) > 1:
                 env.log('overlap', seq=seq, running=sorted(running))
             try:
-                if self.events[seq][2]:
+                if seq < len(self.events) and self.events[seq][2]:
                     await asyncio.sleep(self.events[seq][2])
                 env.log('proc-end', seq=seq, uid=uid)
             finally:
@@ -295,6 +295,19 @@ class QueueingScenario(Scenario):
                     e.stream_fault(st, 'eof')
                 e.log('reconnect')
             items.append((float(self.params['reconnect_at']), 9_000, 'reconnect', reconnect))
+        if self.params.get('relist_at') is not None:
+            # the watch breaks with "410 Gone" and, before the client has listed anew, object `a` changes once more: that change reaches
+            # the client through the LISTING only (an event of type None), whatever the state of a's worker at that moment
+            def relist(e: Env) -> None:
+                for st in e.world.open_streams():
+                    e.stream_fault(st, 'gone410')
+                i = len(self.events)      # the number of the change made in the gap
+                e.world.merge(self.K, 'ns', 'a', {'spec': {'seq': i, 'dur': 0.0}})
+                for st in e.world.open_streams():
+                    while e.world.stream_next(st) is not None:
+                        e.world.deliver(st)
+                e.log('relist', seq=i)
+            items.append((float(self.params['relist_at']), 9_500, 'relist', relist))
         if self.cancel_at is not None:
             items.append((self.cancel_at, 10_000, 'cancel', lambda e: (e.log('cancel'), self.task.cancel())))
             if self.cancel2:
@@ -305,10 +318,34 @@ class QueueingScenario(Scenario):
     def done(self, env: Env) -> bool:
         return False
 
+    def check_relisted(self, env: Env) -> list[Violation]:
+        """Streams with a re-listing: every object's states are processed in the order they came about, one at a time, and the LAST state of
+        every object is processed (a listing delivers the current state of everything once more: repeats are the API's, not the framework's)."""
+        out: list[Violation] = []
+        seen: dict[str, list[int]] = collections.defaultdict(list)
+        for t, k, p in env.obs:
+            if k == 'proc-start':
+                seen[p['uid']].append(p['seq'])
+            elif k == 'overlap':
+                out.append(self.viol(env, 'overlap', f"events of one object processed concurrently: {p}", clause='serial'))
+            elif k == 'watcher-exit' and p['how'] == 'error':
+                out.append(self.viol(env, 'watcher-error', f"watcher raised {p.get('error')}", clause='shutdown'))
+        final = {o['metadata'].get('uid') or o['metadata']['name']: o['spec']['seq'] for o in env.world.objects[self.K.key].values()}
+        for uid, seqs in seen.items():
+            if seqs != sorted(seqs):
+                out.append(self.viol(env, 'order', f"object {uid}: states processed in the order {seqs}", clause='order'))
+        for uid, last in final.items():
+            if not seen.get(uid) or seen[uid][-1] != last:
+                out.append(self.viol(env, 'lost', f"object {uid}: its last state (change #{last}, delivered through the re-listing or the watch) was never processed; "
+                                                  f"processed: {seen.get(uid)}", clause='lossless', via='relist'))
+        return out
+
     def check(self, env: Env) -> list[Violation]:
         out: list[Violation] = []
         if env.end_reason in ('stall', 'livelock', 'deadlock', 'step-budget'):
             return [self.viol(env, 'no-progress', f'execution ended with {env.end_reason}', end=env.end_reason)]
+        if self.params.get('relist_at') is not None:
+            return self.check_relisted(env)
         starts: dict[int, float] = {}
         ends: dict[int, float] = {}
         order: dict[str, list[int]] = collections.defaultdict(list)
@@ -437,6 +474,11 @@ def scenarios(tier: str) -> list[QueueingScenario]:
     for framing in ('newline-alone', 'split-mid', 'newline-leads', 'bytes3'):
         for evs in ([(0.0, 'a', 0.25), (0.0, 'b', 0.0), (0.25, 'a', 0.0)], [(0.0, 'a', 1.5), (0.25, 'a', 0.25), (0.25, 'b', 0.25), (1.25, 'a', 0.0)]):
             out.append(QueueingScenario(events=evs, limit=None, framing=framing))
+    # the watch breaks (410 Gone) and is re-listed while a's worker is busy / idle but alive / retired / waiting for a slot, a having changed in the gap
+    for evs in ([(0.0, 'a', 1.5), (0.25, 'b', 0.0)], [(0.0, 'a', 0.0), (0.25, 'b', 0.25)], [(0.0, 'a', 0.25), (0.0, 'b', 1.5), (0.25, 'a', 0.0)]):
+        for at in (0.5, 0.75, 1.0, 1.25, 1.5, 2.5):
+            for lim in (None, 1):
+                out.append(QueueingScenario(events=evs, limit=lim, relist_at=at))
     # cancellation (single and double) while workers are busy / idle / waiting for a slot
     for evs in ([(0.0, 'a', 0.25), (0.0, 'a', 0.25)], [(0.0, 'a', 1.5), (0.25, 'b', 0.25), (0.25, 'a', 0.25)],
                 [(0.0, 'a', 1.5), (0.0, 'a', 1.5)], [(0.0, 'a', 0.25), (0.0, 'b', 1.5), (0.25, 'b', 0.25)]):
